@@ -134,7 +134,10 @@ class Cont:
                     del mc[op[1]].attrs[op[2]]
                 elif k == "attach":
                     # schema token "name+variant": variant only selects the instance from the corpus
-                    mc[op[1]].meta[op[2].split("+")[0]] = instance(op[2], n)
+                    val = instance(op[2], n)
+                    if hasattr(val, "build"):  # corpus entry that stands for an object (e.g. an instance of a child schema)
+                        val = val.build()
+                    mc[op[1]].meta[op[2].split("+")[0]] = val
                 elif k == "detach":
                     del mc[op[1]].meta[op[2].split("+")[0]]
                 elif k == "copy":
